@@ -468,7 +468,11 @@ func c12BlockingOnce(c *core.Case, last bool) (retry bool) {
 	if customCtx {
 		// a context implemented outside the standard library (like the store's
 		// primary context): done when its channel closes, with its own error
-		cc := &c12Ctx{Context: context.Background(), done: make(chan struct{})}
+		// (its parent is a live cancelable context, so context.Cause finds the
+		// parent's empty cause rather than falling back to Err)
+		parent, pcancel := context.WithCancel(context.Background())
+		defer pcancel()
+		cc := &c12Ctx{Context: parent, done: make(chan struct{})}
 		ctx, cancel = cc, func() { cc.once.Do(func() { close(cc.done) }) }
 		defer cancel()
 	}
